@@ -18,6 +18,7 @@ import (
 	"fmt"
 	"io"
 	"log/slog"
+	"net/url"
 	"regexp"
 	"strings"
 	"unicode/utf8"
@@ -371,6 +372,9 @@ var urlQuotes = []string{`"`, `'`, `"'`, `''`}
 
 // the grammar excludes texts whose own first/last byte is a quote or a space (they are trimmed)
 func edgeFix(g *gRef) {
+	if g.Query != nil && strings.HasSuffix(*g.Query, " ") {
+		g.Query = sp(*g.Query + "e") // the grammar has no query ending with a space
+	}
 	for k := 0; k < 4; k++ {
 		t := g.render()
 		if t == "" {
@@ -439,7 +443,7 @@ var urlOddTexts = []string{
 	"www.example.com", "www.example.com:8080/x", "example.com/a/../b?z=1&a=2", "//example.com", "/path", "../x", "a/b", "?z=1&a=2", "#f", "a.b", "a.b?x#y",
 	"http://a.b/?z=1&a=2&m=3&z=4", "http://preview.redd.it/x?b=1&a='2'", "http://a.b:80/", "https://a.b:443/", "http://a.b:443/", "https://a.b:80/", "http://a.b?", "http://a.b?#", "http://a.b/?&&", "http://a.b/?=",
 	"http://a.b/a/./b/../c/%2e%2e/d/.", "http://a.b/..", "http://a.b/../..", "http://a.b//", "http://a.b//..//x", "http://a.b/x/%2E", "http://a.b/.%2e/x",
-	"http://a.b/[x]", "http://a.b/{x}|^`", "http://a.b/%41 b", "http://a.b/x?a= ", "x?a= ", "%2fa/b", "%2Fa", "/x'", "x/y'", "?&",
+	"http://a.b/[x]", "http://a.b/{x}|^`", "http://a.b/%41 b", "http://a.b/x?a= ", "x?a= ", "%2fa/b", "%2Fa", "/x'", "x/y'", "?&", "%2e%2e%2fx|", "x%2fy^z", "http://a.b/d/%2e%2e%2fx|",
 	"http://" + strings.Repeat("a", 64) + ".com/", "http://" + strings.Repeat("a.", 130) + "com/", "http://a.b/" + strings.Repeat("x/", 300),
 }
 
@@ -573,6 +577,31 @@ func adaMisreads(input string) bool {
 		}
 	}
 	return false
+}
+
+// net/url rebuilds the whole path from its DECODED form when the raw path contains a byte it
+// considers invalid; '|' and '^' are the two such bytes that ada leaves alone.  Every escape of
+// the path is then decoded (%2e%2e%2f becomes "../", %2f becomes a separator).
+func netpathReescape(text string, pcanon string) bool {
+	t := text
+	if k := strings.IndexAny(t, "?#"); k >= 0 {
+		t = t[:k]
+	}
+	t += canonPath(pcanon) // the escapes may come from the parent's path
+	return strings.ContainsAny(t, "|^") && strings.Contains(t, "%")
+}
+
+// what net/url makes of a text before ada sees it (no parent, or absolute): when the raw path has a
+// byte net/url does not accept, the path is rebuilt from its decoded form, escapes are gone
+func goRerender(text string) string {
+	u, err := url.Parse(strings.Trim(text, "\"'"))
+	if err != nil {
+		return ""
+	}
+	if u.Scheme == "" {
+		u.Scheme = "http"
+	}
+	return u.String()
 }
 
 var schemeRe = regexp.MustCompile(`^[A-Za-z][A-Za-z0-9+.-]*:`)
@@ -827,8 +856,11 @@ func execURL(input string) Result {
 	if pc != nil {
 		pcs = pc.String()
 	}
-	if adaDotClass(text, pcs) {
+	if adaDotClass(text, pcs) || adaDotClass(goRerender(text), pcs) {
 		tags = append(tags, "ada-dotpath")
+	}
+	if netpathReescape(text, pcs) {
+		tags = append(tags, "netpath-reescape")
 	}
 	if !utf8.ValidString(text) || (ptext != nil && !utf8.ValidString(*ptext)) {
 		tags = append(tags, "invalid-utf8")
